@@ -165,7 +165,7 @@ def run(pid, tier):
         # the listener automaton (spec/DslDoc.tla) has to explain what the real listener did on these documents too: contexts with
         # missing parts after error recovery, early returns, and - were there one - the callback at which the Go code would panic
         stuck = {o["id"] for o in read_ndjson(out) if any(r in ("hang", "notrun") for r in o["results"].values())}
-        nd = chk_dsl.doc_validate(chk, binary, sc, [{"id": k, "text": v, "src": ["none", 0, 0]} for k, v in list(texts.items()) + list(aux.items()) if len(v) < 30000 and k not in stuck and not stuck],
+        nd = chk_dsl.doc_validate(chk, binary, sc, [{"id": k, "text": v, "src": ["none", 0, 0]} for k, v in (list(texts.items()) + list(aux.items()))[::1 if tier == "quick" else 2][:15000] if len(v) < 30000 and k not in stuck and not stuck],
                                   "token-mutated documents and byte-mutated fixtures")
         # ... and their token streams against the lexer automaton (spec/Lexer.tla): the lexer on texts that are NOT sentences
         chk_dsl.lexer_validate(chk, binary, sc, [{"id": k, "text": v} for k, v in (list(texts.items()) + list(aux.items()))[::5 if tier == "quick" else 2][:15000] if len(v) < 20000 and k not in stuck and not stuck],
